@@ -58,6 +58,14 @@ class Perturb:
         if name == "stop_flipped":
             self.stopping = True  # let the backlog drain at full speed once stop() has begun
             return
+        if name == "submitted" and self.policy == "slow_start":
+            # ... and right after it has handed a node its first task, before the rest of `_start` runs
+            import threading
+
+            if ctx["fn"] == "push_scheduled_ts" and threading.current_thread() is threading.main_thread():
+                self.n += 1
+                time.sleep(0.02)
+            return
         if name == "submit" and self.policy == "slow_start":
             # AsyncGraph.start() starts the nodes one after another from the user's thread; pausing it before a node's first tick lets the
             # nodes started earlier run ahead into connections whose receiver has not been started yet
